@@ -8,6 +8,14 @@ from . import tokens as T
 from . import c12
 
 EXPLANATION = (
+    "(documented) On the expression catalogue (sa/rules/exhaust.py: one branch in every context, two branches in one sequence, "
+    "a branch nested in a repetition, the same behind a root; ~20 000 expressions in the quick tier) the verdict of the rule "
+    "functions (rule::boundary, branch, bounds evaluated from their THIR on the whole tree) is compared with the documented "
+    "rules, computed independently by expansion: every choice of alternation branches, every repetition body once and twice, "
+    "must put no two component boundaries next to each other and (one pass) no two zero-or-more wildcards; no branch is solely "
+    "a tree wildcard, no repetition body solely a separator or zero-or-more wildcard; no alternation branch and no optional "
+    "repetition that nothing can precede begins with a separator or rooted tree wildcard.  Both directions (accepted <=> "
+    "well-formed), for the shapes of the catalogue.  For all expressions: "
     "Static decision of the rule checker's finite structure: (table) the decision tables of check_branch, "
     "check_alternation and check_repetition over terminal shapes x neighbour predicates against a reference written from "
     "the README / property text (accept / reject, tri-state); (ctxfree) the neighbour context handed to each check is "
@@ -18,7 +26,7 @@ EXPLANATION = (
     "sequencers select first / last / all children and LeafKind::boundary = {separator, tree wildcard}; (bounds, size) "
     "the two predicates; (all) check returns Ok only after all four rules, and Checked is constructed only in check and "
     "in transformations of an existing Checked.")
-RULES = "C06.table (TABLE), C06.ctxfree (LOOPDEP + EFFECT), C06.reach (TABLE), C06.bounds / C06.size (TABLE), C06.all (EFFECT+WHO)"
+RULES = "C06.documented (TABLE on a catalogue: verdict vs. the documented rules by expansion), C06.table (TABLE), C06.ctxfree (LOOPDEP + EFFECT), C06.reach (TABLE), C06.bounds / C06.size (TABLE), C06.all (EFFECT+WHO)"
 
 KINDS = ["sep", "tree-rooted", "tree", "zom", "lit", "branch"]
 BOUNDARY = {"sep", "tree-rooted", "tree"}
@@ -45,6 +53,8 @@ def run(ctx):
     rule_boundary(F, R)
     rule_bounds_size(F, R)
     rule_all(F, R)
+    from . import exhaust
+    exhaust.report_query(F, R, "C06.documented", ctx.tier, "rules", 15000, 15000)
 
 
 # ---------------------------------------------------------------------------------------------------
